@@ -1,11 +1,11 @@
 /-
 C10 — Printed digit tables place every digit at its true position.
 -/
-import Sqroot.Proofs.Overflow
+import Sqroot.Proofs.OverflowWidth
 import Sqroot.Proofs.Print
 import Sqroot.Proofs.Fprint
 import Sqroot.Proofs.Fprint12
-import Sqroot.Proofs.EndToEnd
+import Sqroot.Proofs.EndToEndPrint
 namespace Sqroot.Props.C10
 open Sqroot.Model Sqroot.Proofs
 
